@@ -1,4 +1,5 @@
 import RedoModel.Lemmas.LogRec
+import RedoModel.Props.C18b
 import RedoModel.Generated
 /-!
 # C18 — Build output is logged completely, once, and under the right target
